@@ -127,7 +127,7 @@ def divisors_of_xn1(n):
     return sorted(out)
 
 
-def catalogue(tier, rng, families=None, max_n=64):
+def catalogue(tier, rng, families=None, max_n=64, long_bch=False):
     from kaira.models.fec import encoders as E
     quick = tier == "quick"
     cat = []
@@ -247,7 +247,10 @@ def catalogue(tier, rng, families=None, max_n=64):
                     pass
             for info, iset in infos:
                 if quick and mu >= 5 and (info == "right" or delta < 2 ** (mu - 1) - 5):
-                    continue        # quick tier: of the long BCH codes only the low-rate ones (k small enough to enumerate)
+                    # quick tier: of the long BCH codes only the low-rate ones (k small enough to enumerate); with long_bch also the
+                    # high-rate ones whose dual is small enough for the MacWilliams route (n - k <= 20)
+                    if not (long_bch and info == "left" and (mu == 5 or delta <= 7)):
+                        continue
                 add(Entry("BCH(mu=%d,delta=%d)/%s" % (mu, delta, info), "bch", (mu, delta), (lambda mu=mu, delta=delta, iset=iset: E.BCHCodeEncoder(mu, delta, information_set=iset)),
                           info=info, cyclic=True, gpoly="obj", component="BCHCodeEncoder"))
     # --- Golay
@@ -293,6 +296,53 @@ def _rank(rows):
                 basis[p] = r
                 break
     return len(basis)
+
+
+def dual_weight_distribution(rows, n, max_dim=20):
+    """Weight distribution B[0..n] of the dual of the row space of `rows` (integers, bit j = position j), by enumeration of the
+    dual's 2^(n - rank) words; [] when the dual is larger than 2^max_dim or n > 63."""
+    import numpy as np
+    if n > 63:
+        return []
+    # reduced row echelon form of the rows: pivots and the free positions give a basis of the null space
+    piv = {}
+    for r in rows:
+        for p, b in piv.items():
+            if (r >> p) & 1:
+                r ^= b
+        if r:
+            p = (r & -r).bit_length() - 1
+            for q in list(piv):
+                if (piv[q] >> p) & 1:
+                    piv[q] ^= r
+            piv[p] = r
+    free = [j for j in range(n) if j not in piv]
+    if len(free) > max_dim:
+        return []
+    basis = []
+    for f in free:
+        v = 1 << f
+        for p, b in piv.items():
+            if (b >> f) & 1:
+                v |= 1 << p
+        basis.append(v)
+    words = np.zeros(1, dtype=np.uint64)
+    for v in basis:
+        words = np.concatenate([words, words ^ np.uint64(v)])
+    pc = np.zeros(len(words), dtype=np.int64)
+    w = words.copy()
+    for _ in range(8):
+        pc += _PC8[(w & np.uint64(255)).astype(np.int64)]
+        w >>= np.uint64(8)
+    return [int(c) for c in np.bincount(pc, minlength=n + 1)]
+
+
+def _pc8():
+    import numpy as np
+    return np.array([bin(i).count("1") for i in range(256)], dtype=np.int64)
+
+
+_PC8 = _pc8()
 
 
 def advertised_d(entry, enc):
@@ -342,7 +392,12 @@ def advertise_event(entry, enc, tid, enum_k):
         g = int(enc.generator_poly.value)
     gp = [-1] if g is None else [(g >> j) & 1 for j in range(n + 1)]
     cyc = bool(entry.cyclic and entry.info in ("left", "right"))
-    return {"ev": "Advertise", "tid": tid, "family": entry.family if entry.family not in ("cyclic", "cyclic_named", "linear", "systematic", "ldpc") else "other",
+    G = enc.generator_matrix
+    dualB = []
+    if G.shape[1] == n and k > enum_k:
+        # sensor for the MacWilliams route: the weight distribution of the dual of the row space of the PUBLISHED generator matrix
+        dualB = dual_weight_distribution([sum(int(b) << j for j, b in enumerate(r)) for r in (G.to(torch.int64) % 2).tolist()], n)
+    return {"ev": "Advertise", "dualB": dualB, "tid": tid, "family": entry.family if entry.family not in ("cyclic", "cyclic_named", "linear", "systematic", "ldpc") else "other",
             "params": list(entry.params) if entry.family in ("hamming", "golay", "repetition", "spc", "rm", "bch", "rs") else [0],
             "rate6": int(round(float(enc.code_rate) * 1e6)), "d": d, "dexact": bool(entry.dexact and d > 0), "enum_k": enum_k,
             "cyclic": cyc, "gpoly": gp, "perfect": bool(entry.perfect), "t": t}
